@@ -1322,6 +1322,10 @@ std::string Annotator::AnnotatorImpl::setAutoId(const AnyCellmlElementPtr &item)
             auto oldId = id(item);
 
             if (!isOwnedByModel(item)) {
+                auto issue = Issue::IssueImpl::create();
+                issue->mPimpl->setDescription("The item does not belong to the model that this Annotator object works with. No identifier has been assigned.");
+                issue->mPimpl->setLevel(Issue::Level::WARNING);
+                addIssue(issue);
                 return newId;
             }
 
